@@ -3,7 +3,7 @@ from lib.vf import Case
 from gen.common import *
 
 SDF = bytes([2, 0, 13]) + b"@setDataFrame"
-EXTFIX = 0   # 1 once lal writes the extended timestamp also for ts == 0xFFFFFF (fix F-01)
+EXTFIX = 1   # lal writes the extended timestamp also for ts == 0xFFFFFF (fix F-01, bee1ba4)
 
 
 def amf_str(s):
